@@ -604,6 +604,15 @@ fn client_table(rep: &mut SearchReport, seed: u64, only: Option<&serde_json::Val
         }
     }
     *rep.stats.labels.entry("client_scenarios".to_string()).or_insert(0) += scenarios.len() as u64;
+    if only.is_none() || only.map(|o| o["index"] == "lists").unwrap_or(false) {
+        if !wait_state(&rust_states, "Connected", long) || !wait_state(&fc.states, "Connected", long) {
+            return Err("INFRA: channels not connected before the list histories".to_string());
+        }
+        if let Some((msg, case)) = list_histories(&rt, &channel, &fc, &peer, &mut next, rep) {
+            fail(rep, msg, case);
+            return Ok(());
+        }
+    }
     // connection states by name: what the C listener saw must be what the Rust listener saw, as
     // a set of names and with the same first three states
     let a = rust_states.lock().unwrap().clone();
@@ -618,6 +627,132 @@ fn client_table(rep: &mut SearchReport, seed: u64, only: Option<&serde_json::Val
     }
     fc.destroy();
     Ok(())
+}
+
+/// A BitList / RegisterList belongs to the caller: a write sends a copy of what the list holds at
+/// that moment. Histories of add / write on ONE list object, every write compared on the wire
+/// with the Rust API given the same values.
+fn list_histories(
+    rt: &tokio::runtime::Runtime,
+    channel: &Channel,
+    fc: &FfiClient,
+    peer: &Peer,
+    next: &mut dyn FnMut() -> u64,
+    rep: &mut SearchReport,
+) -> Option<(String, serde_json::Value)> {
+    let long = Duration::from_secs(5);
+    let mk_param = || ffi::RequestParam {
+        unit_id: 7,
+        timeout: 2000,
+    };
+    let rparam = RequestParam::new(UnitId::new(7), Duration::from_millis(2000));
+    for h in 0..24u32 {
+        let regs = h % 2 == 1;
+        let cap = (next() % 5) as u32;
+        let (bl, rl) = unsafe {
+            if regs {
+                (std::ptr::null_mut(), ffi::rodbus_register_list_create(cap))
+            } else {
+                (ffi::rodbus_bit_list_create(cap), std::ptr::null_mut())
+            }
+        };
+        let mut model: Vec<u16> = Vec::new();
+        let mut writes = 0;
+        let mut history: Vec<String> = Vec::new();
+        let steps = 3 + (next() % 4) as usize;
+        let mut failure: Option<String> = None;
+        for step in 0..steps {
+            // add a few values (none on some steps: the same content is written twice)
+            let adds = if step == 0 { 1 + next() % 20 } else { next() % 4 } as usize;
+            for _ in 0..adds {
+                let v = next() as u16;
+                unsafe {
+                    if regs {
+                        ffi::rodbus_register_list_add(rl, v);
+                    } else {
+                        ffi::rodbus_bit_list_add(bl, v % 2 == 1);
+                    }
+                }
+                model.push(if regs { v } else { v % 2 });
+            }
+            history.push(format!("add x{}", adds));
+            let start = (next() % 500) as u16;
+            history.push(format!("write @{}", start));
+            // Rust API with the values the list is known to hold
+            peer.seen.lock().unwrap().clear();
+            let rust = rt.block_on(async {
+                if regs {
+                    channel
+                        .write_multiple_registers(rparam, WriteMultiple::from(start, model.clone()).unwrap())
+                        .await
+                        .map(|_| ())
+                } else {
+                    channel
+                        .write_multiple_coils(
+                            rparam,
+                            WriteMultiple::from(start, model.iter().map(|x| *x == 1).collect()).unwrap(),
+                        )
+                        .await
+                        .map(|_| ())
+                }
+            });
+            let rust_req = peer.seen.lock().unwrap().clone();
+            peer.seen.lock().unwrap().clear();
+            let slot: SlotRef = Default::default();
+            let rc = unsafe {
+                if regs {
+                    ffi::rodbus_client_channel_write_multiple_registers(fc.ch, mk_param(), start, rl, write_callback(&slot))
+                } else {
+                    ffi::rodbus_client_channel_write_multiple_coils(fc.ch, mk_param(), start, bl, write_callback(&slot))
+                }
+            };
+            let got = if rc == 0 { wait_slot(&slot, long) } else { vec![] };
+            let ffi_req = peer.seen.lock().unwrap().clone();
+            rep.stats.evaluations += 1;
+            writes += 1;
+            let rust_got = match rust {
+                Ok(()) => Got::WriteOk,
+                Err(e) => Got::Err(expected_name(&e)),
+            };
+            if rc != 0 {
+                failure = Some(format!(
+                    "write {} of the same list ({} values held): the C call returned {:?}, the Rust API with the same values gives {:?}",
+                    writes,
+                    model.len(),
+                    ffi::ParamError::from(rc),
+                    short(&rust_got)
+                ));
+                break;
+            }
+            if got.len() != 1 || got[0] != rust_got || ffi_req != rust_req {
+                failure = Some(format!(
+                    "write {} of the same list ({} values held): Rust API {:?} with request {:?}, C ABI {:?} with request {:?}",
+                    writes,
+                    model.len(),
+                    short(&rust_got),
+                    rust_req.first().map(|r| (r.0, r.1.len())),
+                    got.first().map(short),
+                    ffi_req.first().map(|r| (r.0, r.1.len()))
+                ));
+                break;
+            }
+        }
+        unsafe {
+            if regs {
+                ffi::rodbus_register_list_destroy(rl);
+            } else {
+                ffi::rodbus_bit_list_destroy(bl);
+            }
+        }
+        let case = json!({"table": "client", "index": "lists", "kind": if regs {"registers"} else {"bits"}, "capacity": cap, "history": history});
+        if let Some(f) = failure {
+            return Some((format!("list history {}: {}", case, f), case));
+        }
+        rep.stats.nontrivial_total += 1;
+        rep.stats.distinct.insert(crate::runner::hash_of(&format!("{}", case)));
+        *rep.stats.labels.entry("list_histories".to_string()).or_insert(0) += 1;
+    }
+    None
 }
 
 fn short(g: &Got) -> String {
